@@ -356,3 +356,66 @@ Proof.
   exists [TAtom 0; TOr; TAtom 1; TAnd; TAtom 2], (fun n => Nat.eqb n 0), (Or (Atom 0) (And (Atom 1) (Atom 2))).
   split; [reflexivity|]. vm_compute. discriminate.
 Qed.
+
+(* ================================================================== parentheses first: any table *)
+Section Full.
+Variable t : table.
+
+Definition evp minp ts r := exists f0, forall f, f0 <= f -> parse_expr t f minp ts = r.
+Definition evc minp lhs ts r := exists f0, forall f, f0 <= f -> climb t f minp lhs ts = r.
+Definition nobin (rest : list tok) : Prop :=
+  match rest with [] => True | k :: _ => binop t k = None end.
+
+Lemma evc_stop minp lhs rest : nobin rest -> evc minp lhs rest (Some (lhs, rest)).
+Proof.
+  intro H. exists 1. intros f Hf. destruct f as [|f]; [lia|]. simpl.
+  destruct rest as [|k r]; [reflexivity|]. simpl in H. rewrite H. reflexivity.
+Qed.
+
+Lemma evp_paren minp s e rest r :
+  evp 0 (s ++ TR :: rest) (Some (e, TR :: rest)) -> evc minp e rest r -> evp minp (TL :: s ++ TR :: rest) r.
+Proof.
+  intros [f1 H1] [f2 H2]. exists (S (f1 + f2)). intros f Hf. destruct f as [|f]; [lia|].
+  simpl. rewrite H1 by lia. apply H2. lia.
+Qed.
+
+Lemma evc_op minp lhs k p la mk rhs ts rest r :
+  binop t k = Some (p, la, mk) -> minp <= p ->
+  evp (if la then S p else p) ts (Some (rhs, rest)) -> evc minp (mk lhs rhs) rest r -> evc minp lhs (k :: ts) r.
+Proof.
+  intros Hb Hp [f1 H1] [f2 H2]. exists (S (f1 + f2)). intros f Hf. destruct f as [|f]; [lia|].
+  simpl. rewrite Hb. destruct (Nat.leb_spec minp p); [|lia]. rewrite H1 by lia. apply H2. lia.
+Qed.
+
+Lemma full_rt : forall e rest, nobin rest -> evp 0 (print_full e ++ rest) (Some (e, rest)).
+Proof.
+  induction e as [n | a IHa | a IHa b IHb | a IHa b IHb]; intros rest Hr.
+  - (* atom *)
+    destruct (evc_stop 0 (Atom n) rest Hr) as [f0 H]. exists (S f0). intros f Hf. destruct f as [|f]; [lia|].
+    simpl. apply H. lia.
+  - (* not *)
+    simpl. rewrite <- app_assoc. simpl.
+    assert (Hin : evp (top t) (TL :: print_full a ++ TR :: rest) (Some (a, rest))).
+    { apply (evp_paren _ (print_full a) a); [apply IHa; reflexivity|apply evc_stop; exact Hr]. }
+    destruct Hin as [f1 H1]. destruct (evc_stop 0 (Not a) rest Hr) as [f2 H2].
+    exists (S (f1 + f2)). intros f Hf. destruct f as [|f]; [lia|]. simpl.
+    rewrite H1 by lia. apply H2. lia.
+  - (* and *)
+    simpl. rewrite <- !app_assoc. simpl. rewrite <- !app_assoc. simpl.
+    apply (evp_paren _ (print_full a) a); [apply IHa; reflexivity|].
+    eapply (evc_op 0 a TAnd (p_and t) (l_and t) And b); [reflexivity|lia| |apply evc_stop; exact Hr].
+    apply (evp_paren _ (print_full b) b); [apply IHb; reflexivity|apply evc_stop; exact Hr].
+  - (* or *)
+    simpl. rewrite <- !app_assoc. simpl. rewrite <- !app_assoc. simpl.
+    apply (evp_paren _ (print_full a) a); [apply IHa; reflexivity|].
+    eapply (evc_op 0 a TOr (p_or t) (l_or t) Or b); [reflexivity|lia| |apply evc_stop; exact Hr].
+    apply (evp_paren _ (print_full b) b); [apply IHb; reflexivity|apply evc_stop; exact Hr].
+Qed.
+
+Theorem parse_print_full : forall e, parse t (print_full e) = Some e.
+Proof.
+  intros e. destruct (full_rt e [] I) as [f0 H]. rewrite app_nil_r in H. unfold parse.
+  rewrite <- (parse_fuel_enough t (print_full e) (f0 + (2 * length (print_full e) + 2))) by lia.
+  rewrite H by lia. reflexivity.
+Qed.
+End Full.
